@@ -18,7 +18,9 @@ int main(int argc, char **argv) {
     return run(argc, argv, [&](const std::vector<std::string> &t) {
         if (t[0] == "R") { Ev e("Reset"); e.end(); return; }
         // Str fn mem a b n pad
-        const std::string &fn = t[1]; auto m = blist(t[2]); long a = num(t[3]), b = num(t[4]); size_t n = num(t[5]); size_t pad = num(t[6]);
+        const std::string &fn = t[1]; auto m = blist(t[2]); long a = num(t[3]), b = num(t[4]); size_t n = t[5][0] == '-' ? (size_t)num(t[5]) : (size_t)strtoull(t[5].c_str(), 0, 10); size_t pad = num(t[6]);
+        // a count that does not fit TLC's integers (2^31 and more, or "negative" = near SIZE_MAX) is logged as -1 ("more than any object") and exactly as text
+        long long nlog = n > 2147483647ull ? -1 : (long long)n;
         size_t sz = m.size(); unsigned char *blk = (unsigned char *)malloc(pad + sz ? pad + sz : 1); unsigned char *M = blk + pad; memcpy(M, m.data(), sz);
         char *A = (char *)M + a, *B = (char *)M + b; long ret = 0; std::vector<long long> list; bool islist = false; std::vector<unsigned char> dup; bool isdup = false;
         auto off = [&](const void *p) -> long { return p ? (long)((const unsigned char *)p - M) : -1; };
@@ -40,7 +42,7 @@ int main(int argc, char **argv) {
             list.push_back(off(tk));   // the NULL that ended the loop, then two further searches: they must return NULL as well
             for (int k = 0; k < 2; ++k) { tk = fn == "strtok" ? igv_strtok(0, B) : igv_strtok_r(0, B, &save); list.push_back(off(tk)); } }
         else { fprintf(stderr, "bad fn %s\n", fn.c_str()); exit(3); }
-        Ev e("Str"); e.str("fn", fn.c_str()).bytes("mem", m.data(), sz).i("a", a).i("b", b).i("n", n).i("pad", pad);
+        Ev e("Str"); e.str("fn", fn.c_str()).bytes("mem", m.data(), sz).i("a", a).i("b", b).i("n", nlog).str("ns", t[5].c_str()).i("pad", pad);
         if (islist) e.ints("ret", list); else if (isdup) e.bytes("ret", dup.data(), dup.size()); else e.i("ret", ret);
         e.bytes("mem2", M, sz); e.end(); free(blk);
     });
